@@ -146,6 +146,23 @@ def run(rep, tier, seed, replay=None):
             rep.add_broken('correspondence', 'C05_hidden_root_refuted witness vs implementation', {'impl_bits': bits, 'model_bits': expect})
     else:
         rep.add_broken('search', 'vh c05 rootwitness', out[-300:])
+    # the witness of C05_attach_below_hidden_refuted (known finding C01/hidden-region-stale) on the implementation: a laid-out subtree
+    # attached two levels below a clean display:none node keeps its 5 x 5 layout; attached to the display:none node itself it is zeroed
+    rc, out = vh(binp, ['c05', 'stalewitness'])
+    m = re.search(r'^S (\d+) (\d+) (\d+) (\d+)$', out, re.M)
+    if m:
+        b = [int(x) for x in m.groups()]
+        five = 0x40a00000
+        rep.cov['attach_below_hidden_witness'] = {'leaf_size_bits_below_mid': b[:2], 'leaf_size_bits_under_hidden': b[2:],
+                                                  'reproduces_on_implementation': b == [five, five, 0, 0]}
+        if b[2:] != [0, 0]:
+            rep.add_violation('a subtree attached directly to a display:none node keeps a non-zero layout after relayout '
+                              '(the zero clause; the model zeroes it: C05_attach_below_hidden_refuted, last conjunct)', {'cmd': 'vh c05 stalewitness', 'output': out})
+        elif b[:2] != [five, five]:
+            log('[C05] the witness of C05_attach_below_hidden_refuted no longer keeps a stale layout on the implementation: the theorem comment '
+                'and the known finding C01/hidden-region-stale are stale')
+    else:
+        rep.add_broken('search', 'vh c05 stalewitness', out[-300:])
     if not o['fail']:
         # a K disagreement on a concrete grid: decide on the implementation alone -- the reported track counts must not depend on
         # the placement styles of the hidden children
